@@ -68,6 +68,14 @@ Definition catch {X : Type} (e : exn) (body handler : res X) : res X :=
   | Raise e' => if exn_eqb e e' then handler else Raise e'
   end.
 
+(* try: x = body  except e: handler (leaves the function) ; what follows is k x:
+   only the evaluation of body is guarded *)
+Definition mtry {X R : Type} (body : res X) (e : exn) (handler : res R) (k : X -> res R) : res R :=
+  match body with
+  | Ok x => k x
+  | Raise e' => if exn_eqb e e' then handler else Raise e'
+  end.
+
 (* d[k] where the dict is modelled by a lookup: None = KeyError *)
 Definition dict_get {X : Type} (o : option X) : res X :=
   match o with
@@ -119,6 +127,9 @@ Definition pysetindex {X : Type} (l : list X) (i : Z) (x : X) : res (list X) :=
   | Some j => Ok (set_nth l j x)
   | None => Raise IndexError
   end.
+
+(* enumerate(l) *)
+Definition zenumerate {X : Type} (l : list X) : list (Z * X) := OmenRt.zenumerate l.
 
 (* range(a, b) *)
 Definition zrange (a b : Z) : list Z := OmenRt.zrange a b.
@@ -319,6 +330,11 @@ Definition tm_set3 (tm : pytmto) (len : Z) (ip : ostr) (lvl : Z) (v : option pyt
   d1 <- tm_get1 tm len ;;
   d2 <- dict_get (dfind ostr_eqb ip d1) ;;
   pysetindex tm len (dset ostr_eqb ip (dset Z.eqb lvl v d2) d1).
+
+(* self.tmto_lookup[len].setdefault(ip, {}) : the inner dict is created where missing *)
+Definition tm_setdefault2 (tm : pytmto) (len : Z) (ip : ostr) : res pytmto :=
+  d <- tm_get1 tm len ;;
+  if dmem ostr_eqb ip d then Ok tm else pysetindex tm len (dset ostr_eqb ip [] d).
 
 (* [x[:] for x in l] : a new list of new rows; value semantics make it the
    identity on the rows (iterating over None raises) *)
